@@ -307,3 +307,9 @@ class C04(Check):
             return dict(input=i, oracle=bl.overlap_check(bl.unpack_req(i['a']), bl.unpack_req(i['b']), i['mode'], i['spec']))
         sched = i.get('sched', i.get('full_sched', []))
         return dict(input=i, oracle=self._oracle(bytes.fromhex(i['data']), i['cl'], i['buf'], sched))
+
+
+# the cache layer of the request object (cache_in / __setitem__ / __delitem__ / _on_env_changed / copy): an extra
+# correspondence stream and oracle shared with the other two checks that serve `cache_unobservable`
+from harness import envcachelib as _envcache  # noqa: E402
+_envcache.install(C04)
